@@ -77,6 +77,14 @@ End CompileList.
 Definition loop_children (body els : list node) (has_else : bool) : list node :=
   if has_else then [NBlock BTrue no_case body; NBlock BFalse no_case els] else body.
 
+(* rollupSwitchNodes appends the last group only when it has children: a trailing case or default
+   with an empty body leaves no node (it could render nothing anyway) *)
+Definition drop_empty_tail (l : list node) : list node :=
+  match rev l with
+  | NBlock _ _ [] :: r => rev r
+  | _ => l
+  end.
+
 Fixpoint compile (a : ast) : list node :=
   match a with
   | AText [] => []
@@ -95,8 +103,9 @@ Fixpoint compile (a : ast) : list node :=
        (NBlock BTrue no_case (merge_raws (c_list compile th)) ::
         (if has_else then [NBlock BFalse no_case (merge_raws (c_list compile el))] else []))]
   | ASwitch arg cases dflt has_default =>
-    [NSwitch arg (c_cases compile (match arg with [] => false | _ => true end) cases ++
-                  (if has_default then [NBlock BDefault no_case (merge_raws (c_list compile dflt))] else []))]
+    [NSwitch arg (drop_empty_tail
+                    (c_cases compile (match arg with [] => false | _ => true end) cases ++
+                     (if has_default then [NBlock BDefault no_case (merge_raws (c_list compile dflt))] else [])))]
   | ACase _ _ => []
   | ACLoop var init lim initlit limlit cop step sep body els has_else =>
     [NLoopCount var init lim sep initlit limlit cop step
